@@ -402,4 +402,188 @@ theorem Reach.inv {attrs : List Attr} {fs : List FState} {s : St} (h : Reach att
   obtain ⟨os, ho⟩ := h
   exact Inv.presRun os _ _ (init_inv attrs fs) ho
 
+/-! ### liveness: the variant -/
+
+theorem run_append : ∀ (os1 os2 : List Op) (s s1 : St), MitmVerif.C53.run s os1 = some s1 →
+    MitmVerif.C53.run s (os1 ++ os2) = MitmVerif.C53.run s1 os2 := by
+  intro os1
+  induction os1 with
+  | nil => intro os2 s s1 h; simp [MitmVerif.C53.run] at h; subst h; rfl
+  | cons o os ih =>
+    intro os2 s s1 h
+    simp only [MitmVerif.C53.run, List.cons_append] at h ⊢
+    cases hs : step s o with
+    | none => simp [hs] at h
+    | some s2 => simp only [hs] at h ⊢; exact ih os2 s2 s1 h
+
+theorem Reach.extend {attrs : List Attr} {fs : List FState} {s s' : St} {os : List Op}
+    (h : Reach attrs fs s) (hr : MitmVerif.C53.run s os = some s') : Reach attrs fs s' := by
+  obtain ⟨os0, h0⟩ := h
+  exact ⟨os0 ++ os, by rw [run_append os0 os _ _ h0]; exact hr⟩
+
+/-- every loop / server operation strictly decreases the variant -/
+theorem variant_step {s s' : St} {o : Op} (ho : isLoopOp o = true) (h : step s o = some s') :
+    variant s' + 1 ≤ variant s := by
+  cases o with
+  | start _ => simp [isLoopOp] at ho
+  | stop => simp [isLoopOp] at ho
+  | edit _ => simp [isLoopOp] at ho
+  | take =>
+    simp only [MitmVerif.C53.step] at h
+    split at h
+    · rename_i e rest hinf hq
+      simp only [Option.some.injEq] at h; subst h
+      simp [variant, hinf, hq]; omega
+    · simp at h
+  | send =>
+    simp only [MitmVerif.C53.step] at h
+    split at h
+    · rename_i e hinf
+      simp only [Option.some.injEq] at h; subst h
+      simp [variant, hinf]
+    · simp at h
+  | finish r =>
+    simp only [MitmVerif.C53.step] at h
+    split at h
+    · rename_i e ph hinf
+      simp only [Option.some.injEq] at h; subst h
+      cases ph <;> simp [variant, hinf]
+    · simp at h
+
+theorem variant_run : ∀ (os : List Op) (s s' : St), (∀ o ∈ os, isLoopOp o = true) →
+    MitmVerif.C53.run s os = some s' → os.length + variant s' ≤ variant s := by
+  intro os
+  induction os with
+  | nil => intro s s' _ h; simp [MitmVerif.C53.run] at h; subst h; simp
+  | cons o os ih =>
+    intro s s' hall h
+    simp only [MitmVerif.C53.run] at h
+    cases hs : step s o with
+    | none => simp [hs] at h
+    | some s1 =>
+      simp only [hs] at h
+      have h1 := variant_step (hall o List.mem_cons_self) hs
+      have h2 := ih s1 s' (fun o' ho' => hall o' (List.mem_cons_of_mem _ ho')) h
+      simp only [List.length_cons]; omega
+
+/-- while work is left, a terminal event is enabled: the loop can take the next flow, or the replay in flight
+    can be completed by the server's response / failure -/
+theorem progress (s : St) (h : quiescent s = false) :
+    (∃ s', step s .take = some s') ∨ (∀ r, ∃ s', step s (.finish r) = some s') := by
+  unfold quiescent at h
+  cases hinf : s.inflight with
+  | some p =>
+    right; intro r
+    obtain ⟨e, ph⟩ := p
+    exact ⟨{ s with inflight := none, fs := finishFlow s.fs e.idx r, log := .fin e.ticket :: s.log }, by simp [MitmVerif.C53.step, hinf]⟩
+  | none =>
+    left
+    cases hq : s.queue with
+    | nil => simp [hinf, hq] at h
+    | cons e rest => exact ⟨{ s with inflight := some (e, .taken), queue := rest, log := .start e.ticket :: s.log }, by simp [MitmVerif.C53.step, hinf, hq]⟩
+
+/-- a fair completion exists and is short: at most `variant s` loop/server operations drain everything -/
+theorem drain_exists : ∀ (n : Nat) (s : St), variant s ≤ n →
+    ∃ os s', (∀ o ∈ os, isLoopOp o = true) ∧ os.length ≤ variant s ∧
+      MitmVerif.C53.run s os = some s' ∧ quiescent s' = true := by
+  intro n
+  induction n with
+  | zero =>
+    intro s hv
+    refine ⟨[], s, by simp, by simp, rfl, ?_⟩
+    unfold variant at hv
+    unfold quiescent
+    cases hinf : s.inflight with
+    | none =>
+      cases hq : s.queue with
+      | nil => simp
+      | cons e rest => simp [hinf, hq] at hv
+    | some p => obtain ⟨e, ph⟩ := p; cases ph <;> simp [hinf] at hv
+  | succ n ih =>
+    intro s hv
+    cases hqs : quiescent s with
+    | true => exact ⟨[], s, by simp, by simp, rfl, hqs⟩
+    | false =>
+      rcases progress s hqs with ⟨s1, h1⟩ | hfin
+      · have hd := variant_step (o := .take) rfl h1
+        obtain ⟨os, s', ha, hl, hr, hq⟩ := ih s1 (by omega)
+        refine ⟨.take :: os, s', ?_, by simp only [List.length_cons]; omega, by simp [MitmVerif.C53.run, h1, hr], hq⟩
+        intro o ho
+        rcases List.mem_cons.mp ho with rfl | ho
+        · rfl
+        · exact ha o ho
+      · obtain ⟨s1, h1⟩ := hfin true
+        have hd := variant_step (o := .finish true) rfl h1
+        obtain ⟨os, s', ha, hl, hr, hq⟩ := ih s1 (by omega)
+        refine ⟨.finish true :: os, s', ?_, by simp only [List.length_cons]; omega, by simp [MitmVerif.C53.run, h1, hr], hq⟩
+        intro o ho
+        rcases List.mem_cons.mp ho with rfl | ho
+        · rfl
+        · exact ha o ho
+
+/-- a log the status function accepts: every started ticket is finished, except the one the status names -/
+theorem log_closed : ∀ (log : List Ev) (st : Status), logStatus log = some st →
+    ∀ t ∈ startTickets log, t ∈ finTickets log ∨ st = .started t ∨ st = .sentS t := by
+  intro log
+  induction log with
+  | nil => intro st _ t ht; simp [startTickets] at ht
+  | cons e rest ih =>
+    intro st h t ht
+    simp only [logStatus] at h
+    cases hr : logStatus rest with
+    | none => simp [hr] at h
+    | some st0 =>
+      have ih0 := ih st0 hr
+      cases e with
+      | start t0 =>
+        cases st0 <;> simp [hr] at h
+        subst h
+        simp only [startTickets, List.mem_cons] at ht
+        rcases ht with rfl | ht
+        · right; left; rfl
+        · rcases ih0 t ht with h | h | h
+          · left; simpa [finTickets] using h
+          · simp at h
+          · simp at h
+      | sent t0 =>
+        cases st0 with
+        | idle => simp [hr] at h
+        | sentS _ => simp [hr] at h
+        | started t1 =>
+          simp only [hr] at h
+          split at h
+          · rename_i heq
+            simp only [Option.some.injEq] at h; subst h; subst heq
+            simp only [startTickets] at ht
+            rcases ih0 t ht with h | h | h
+            · left; simpa [finTickets] using h
+            · right; right; simp at h; subst h; rfl
+            · simp at h
+          · simp at h
+      | fin t0 =>
+        cases st0 with
+        | idle => simp [hr] at h
+        | started t1 =>
+          simp only [hr] at h
+          split at h
+          · rename_i heq
+            simp only [Option.some.injEq] at h; subst h; subst heq
+            simp only [startTickets] at ht
+            rcases ih0 t ht with h | h | h
+            · left; simp [finTickets, h]
+            · simp at h; subst h; left; simp [finTickets]
+            · simp at h
+          · simp at h
+        | sentS t1 =>
+          simp only [hr] at h
+          split at h
+          · rename_i heq
+            simp only [Option.some.injEq] at h; subst h; subst heq
+            simp only [startTickets] at ht
+            rcases ih0 t ht with h | h | h
+            · left; simp [finTickets, h]
+            · simp at h
+            · simp at h; subst h; left; simp [finTickets]
+          · simp at h
+
 end MitmVerif.C53
